@@ -565,15 +565,26 @@ Qed.
 (* ------------------------------------------------------------------------------------- *)
 (* 4. statements used by C05.v                                                            *)
 
+Lemma run_root_errors_exact fuel first c tu te s t' :
+  grd c = src_guards -> run fuel first c tu te [] [] 0 = (Ok s, t') ->
+  forall k, In k (tree_faults s) <-> (k < t' /\ fault c k = true).
+Proof.
+  intros Hg E. apply run_acct in E; [|rewrite Hg; apply src_guards_all]. destruct E as [_ E].
+  intros k. rewrite E. unfold Fk. split.
+  - intros [[]|[[_ ?] ?]]; auto.
+  - intros [? ?]; right; split; [lia|assumption].
+Qed.
+
 Lemma extract_errors_exact c root s :
   grd c = src_guards -> extract c root = Ok s ->
   exists t', extract_t c root 0 = (Ok s, t') /\
              forall k, In k (tree_faults s) <-> (k < t' /\ fault c k = true).
 Proof.
-  intros Hg H. unfold extract in H. destruct (extract_t c root 0) as [o t'] eqn:E. simpl in H. subst o.
-  exists t'. split; [reflexivity|]. unfold extract_t in E.
-  apply run_acct in E; [|rewrite Hg; apply src_guards_all]. destruct E as [_ E].
-  intros k. rewrite E. simpl. unfold Fk. split; [intros [[]|[[_ ?] ?]]; auto|intros [? ?]; right; split; [lia|assumption]].
+  intros Hg. unfold extract, extract_t.
+  generalize (run_root_errors_exact default_fuel false c (root_q c root) []).
+  generalize (run default_fuel false c (root_q c root) [] [] [] 0).
+  intros [o t'] G H. cbn [fst] in H. subst o.
+  exists t'. split; [reflexivity|]. apply G; [assumption|reflexivity].
 Qed.
 
 Lemma dropge_spec d : forall q, exists p,
